@@ -59,7 +59,7 @@ fn exec_rt(name: &str, bytes: Vec<u8>) -> String {
         "Vkeywitness" => Vkeywitness, "Vkeywitnesses" => Vkeywitnesses, "BootstrapWitness" => BootstrapWitness,
         "BootstrapWitnesses" => BootstrapWitnesses, "TransactionWitnessSet" => TransactionWitnessSet,
         "Transaction" => Transaction, "VRFCert" => VRFCert, "OperationalCert" => OperationalCert,
-        "HeaderBody" => HeaderBody, "Header" => Header, "HeaderBodyPraos" => HeaderBody, "HeaderPraos" => Header, "Block" => Block, "Int" => Int,
+        "HeaderBody" => HeaderBody, "Header" => Header, "HeaderBodyPraos" => HeaderBody, "HeaderPraos" => Header, "Block" => Block, "BlockPraos" => Block, "Int" => Int,
     )
 }
 
